@@ -56,6 +56,9 @@ FxSqrtFast(a) == Z(FALSE, MagSqrtFast(ShiftL(a.m, FL)))     \* a >= 0
 ZDivTFast(a, b) == Z(a.n # b.n, MagDivFast(a.m, b.m))
 
 (* ------------------------------------------------------------------------------------------ helpers *)
+(* TLC evaluates a function constructor [i \in S |-> e] lazily -- element by element and again at every           *)
+(* application; Force turns it into a stored tuple (each element evaluated once).  Same value.                      *)
+Force(s) == s \o <<>>
 FxSortAsc(s) == SortSeq(s, ZLt)                 \* TLC's native insertion sort; equal Fx values are identical
 FxNeg(a) == ZNeg(a)
 FxAbs(a) == ZAbs(a)
@@ -92,7 +95,7 @@ FxToObs(a) ==
 MedianOfSorted(t) == LET n == Len(t) IN
     IF n % 2 = 1 THEN t[(n + 1) \div 2] ELSE FxMid(t[n \div 2], t[n \div 2 + 1])
 Median(s) == MedianOfSorted(FxSortAsc(s))
-AbsDevs(s, m) == [i \in 1..Len(s) |-> ZAbs(ZSub(s[i], m))]
+AbsDevs(s, m) == Force([i \in 1..Len(s) |-> ZAbs(ZSub(s[i], m))])
 (* median absolute deviation about a given centre / about the median; scaled = multiplied by 1.4826 *)
 MadAbout(s, m) == Median(AbsDevs(s, m))
 MadRaw(s) == MadAbout(s, Median(s))
@@ -224,13 +227,13 @@ BwRadius(a, M, c) == FxMax(ZMulInt(MadAbout(a, M), c), BwEps)
 (* one application of the location formula at centre M *)
 BilocStep(a, M, c) ==
     LET n == Len(a)
-        d == [i \in 1..n |-> ZSub(a[i], M)]
+        d == Force([i \in 1..n |-> ZSub(a[i], M)])
         D == BwRadius(a, M, c)
         small == ZLt(D, FxOne)
         Sc(x) == IF small THEN BwUp(x) ELSE x
         D2 == FxMul(Sc(D), Sc(D))
-        t == [i \in 1..n |-> IF ZLt(ZAbs(d[i]), D) THEN ZSub(D2, FxMul(Sc(d[i]), Sc(d[i]))) ELSE ZZero]
-        t2 == [i \in 1..n |-> FxMul(t[i], t[i])]
+        t == Force([i \in 1..n |-> IF ZLt(ZAbs(d[i]), D) THEN ZSub(D2, FxMul(Sc(d[i]), Sc(d[i]))) ELSE ZZero])
+        t2 == Force([i \in 1..n |-> FxMul(t[i], t[i])])
         ws == ZSum(t2)
         num == ZSum([i \in 1..n |-> FxMul(d[i], t2[i])])
     IN IF ZIsZero(ws) THEN M ELSE ZAdd(M, FxDivFast(num, ws))
@@ -267,16 +270,16 @@ BiweightLocation(a) ==       \* c = 6, <= 5 rounds, eps = 10^-3, started at the 
 (* modify_sample_size=True variant, which is the one cnvkit implements).                                        *)
 BivarAt(a, M, c) ==
     LET n == Len(a)
-        d == [i \in 1..n |-> ZSub(a[i], M)]
+        d == Force([i \in 1..n |-> ZSub(a[i], M)])
         D == BwRadius(a, M, c)
         small == ZLt(D, FxOne)
         Sc(x) == IF small THEN BwUp(x) ELSE x
         D2 == FxMul(Sc(D), Sc(D))
         inside(i) == ZLt(ZAbs(d[i]), D)
-        dd == [i \in 1..n |-> FxMul(Sc(d[i]), Sc(d[i]))]
-        t == [i \in 1..n |-> ZSub(D2, dd[i])]
-        s == [i \in 1..n |-> ZSub(D2, ZMulInt(dd[i], 5))]
-        t4 == [i \in 1..n |-> LET t2 == FxMul(t[i], t[i]) IN FxMul(t2, t2)]
+        dd == Force([i \in 1..n |-> FxMul(Sc(d[i]), Sc(d[i]))])
+        t == Force([i \in 1..n |-> ZSub(D2, dd[i])])
+        s == Force([i \in 1..n |-> ZSub(D2, ZMulInt(dd[i], 5))])
+        t4 == Force([i \in 1..n |-> LET t2 == FxMul(t[i], t[i]) IN FxMul(t2, t2)])
         cnt == Cardinality({i \in 1..n : inside(i)})
         num == ZMulInt(ZSum([i \in 1..n |-> IF inside(i) THEN FxMul(dd[i], t4[i]) ELSE ZZero]), cnt)
         den == ZAbs(ZSum([i \in 1..n |-> IF inside(i) THEN FxMul(t[i], s[i]) ELSE ZZero]))
@@ -328,10 +331,14 @@ ZRatLe(p, q) == ZLe(ZMul(p[1], q[2]), ZMul(q[1], p[2]))         \* positive deno
 ZRatEq(p, q) == ZMul(p[1], q[2]) = ZMul(q[1], p[2])
 ZRatMin(p, q) == IF ZRatLe(p, q) THEN p ELSE q
 ZRatMinOver(terms, k, acc) == FoldLeft(ZRatMin, acc, SubSeq(terms, k, Len(terms)))
-BHAdjust(ps) ==
-    LET n == Len(ps)
-        R == [j \in 1..n |-> Cardinality({k \in 1..n : RatLeInt(ps[k], ps[j])})]
-        term == [j \in 1..n |-> <<ZFromInt(n * ps[j][1]), ZFromInt(ps[j][2] * R[j])>>]
-        above(i) == SelectSeq([j \in 1..n |-> j], LAMBDA j : RatLeInt(ps[i], ps[j]))
-    IN [i \in 1..n |-> LET js == above(i) IN ZRatMinOver([k \in 1..Len(js) |-> term[js[k]]], 1, <<ZOne, ZOne>>)]
+(* Every intermediate vector is stored (Force): TLC evaluates a function constructor lazily, element by element    *)
+(* and again at every application, which made the unforced version cubic (200 p-values did not finish).            *)
+BHAdjust(ps0) ==
+    LET ps == Force(ps0)
+        n == Len(ps)
+        R == Force([j \in 1..n |-> Cardinality({k \in 1..n : RatLeInt(ps[k], ps[j])})])
+        term == Force([j \in 1..n |-> <<ZFromInt(n * ps[j][1]), ZFromInt(ps[j][2] * R[j])>>])
+    IN Force([i \in 1..n |->
+                 LET js == SelectSeq(Force([j \in 1..n |-> j]), LAMBDA j : RatLeInt(ps[i], ps[j]))
+                 IN FoldLeft(ZRatMin, <<ZOne, ZOne>>, Force([k \in 1..Len(js) |-> term[js[k]]]))])
 =============================================================================
